@@ -100,7 +100,7 @@ Print Assumptions C08_alloc_linear_base64.
    Proved here for every modelled component of the repository's own code, with K = 520 and
    C = 8194 yielded by the proofs, together with "no request trusts a length field".
    The typed OpenPGP packet parsers and ReadEntity are covered by the four theorems above
-   (C08_alloc_linear_pgp_typed / _entity: 1200 n + 650000; C08_lengths_not_trusted_pgp_typed /
+   (C08_alloc_linear_pgp_typed / _entity: 2400 n + 650000; C08_lengths_not_trusted_pgp_typed /
    _entity: backed or at most 65547).
    Still missing for the full statement: (a) the armor reader: it is modelled (armor_decode: line
    reader over the 100-octet bufio buffer, header map, base64 body, CRC-24) and tied to the
@@ -151,24 +151,24 @@ Proof. intros o kid ov data sz rem B H. destruct (pgp_read_entity_spec o kid ov 
 Print Assumptions C08_lengths_not_trusted_pgp_entity.
 
 (* modelled allocation is linear in the input; constants from the proofs (the 4 KiB bufio.Reader of
-   peekVersion per signature or key packet and the 1 KiB buffer of consumeAll per skipped packet
-   set the rate) *)
+   peekVersion per signature or key packet and the 1 KiB buffer of consumeAll, which since repair F40
+   runs for every packet that is not handed out as a stream, set the rate) *)
 Theorem C08_alloc_linear_pgp_typed : forall o data, bytes_ok data = true ->
-  cost_of (pgp_typed_all o data) <= 1200 * lenN data + 320000.
+  cost_of (pgp_typed_all o data) <= 2400 * lenN data + 320000.
 Proof. intros o data B. destruct (pgp_typed_all_spec o data B) as [H _]. exact H. Qed.
 Print Assumptions C08_alloc_linear_pgp_typed.
 
 Theorem C08_alloc_linear_pgp_entity : forall o kid ov data, bytes_ok data = true ->
-  cost_of (pgp_read_entity o kid ov data) <= 1200 * lenN data + 650000.
+  cost_of (pgp_read_entity o kid ov data) <= 2400 * lenN data + 650000.
 Proof. intros o kid ov data B. destruct (pgp_read_entity_spec o kid ov data B) as [H _]. exact H. Qed.
 Print Assumptions C08_alloc_linear_pgp_entity.
 
 Example C08_pgp_typed_nonvacuous :
   (* a user ID packet "ab" and a marker packet: one typed packet, the unknown tag skipped, cost of the
-     two io.ReadAll buffers, the string and the consumeAll buffer *)
+     two io.ReadAll buffers, the string and the two consumeAll buffers *)
   let data := [205; 2; 97; 98; 202; 1; 80] in
   bytes_ok data = true /\ fst (pgp_typed_all false data) = ([TUid [97; 98]], TEnd) /\
-  cost_of (pgp_typed_all false data) = 1622.
+  cost_of (pgp_typed_all false data) = 2646.
 Proof. vm_compute. repeat split; reflexivity. Qed.
 
 (* ---- recursion depth of the ASN.1 dump: at most half the input length and at most the
